@@ -1,4 +1,5 @@
-(* K6 proofs, part 20: update_summary_section under its guard keeps the invariant. *)
+(* K6 proofs, part 20: update_summary_section (regrouping a section) keeps the invariant when the section is not
+   the raw or record-card section of a table. *)
 From Coq Require Import ZArith List Bool Lia.
 Import ListNotations.
 Require Import Grist.Model.MetaCascade Grist.Proofs.MetaCascade_base Grist.Proofs.MetaCascade_inv
@@ -23,129 +24,48 @@ Proof.
     split; [exact Ht|]. split; [left; reflexivity|]. split; [left; reflexivity|]. split; [left; reflexivity | intros x []].
 Qed.
 
+Lemma add_summary_table_sections : forall name src gb gbkinds fkinds m m' t,
+  add_summary_table name src gb gbkinds fkinds m = Ok (m', t) -> incl (m_sections m) (m_sections m').
+Proof.
+  intros name src gb gbkinds fkinds m m' t H. unfold add_summary_table in H.
+  destruct (mem name (m_schema m) || mem name (map t_name (m_tables m))); [discriminate|].
+  destruct (negb (Nat.eqb (length gb) (length gbkinds)) || negb (nodupb gb)); [discriminate|].
+  destruct (existsb _ (m_columns m)); [discriminate|].
+  unfold add_section in H. cbv zeta in H. cbn [fst snd] in H. inversion H; subst m'. clear H.
+  unfold set_tables, add_fields, set_fields, set_sections. cbn [m_sections]. apply incl_appl, incl_refl.
+Qed.
+
 Lemma regroup_target_inv : forall r m m1 tgt,
-  Inv m -> regroup_target r m = Ok (m1, tgt) -> Inv m1 /\ In tgt (tids m1).
+  Inv m -> regroup_target r m = Ok (m1, tgt) ->
+  Inv m1 /\ In tgt (tids m1) /\ In (rg_sec r) (sids m1).
 Proof.
   intros r m m1 tgt HI H. unfold regroup_target in H.
-  destruct (negb (mem (rg_sec r) (sids m))); [discriminate|].
+  destruct (negb (mem (rg_sec r) (sids m))) eqn:Esec; [discriminate|].
+  apply negb_false_iff in Esec. apply mem_In in Esec.
   destruct (negb (mem (rg_src r) (tids m) && cols_of_table m (rg_gb r) (rg_src r))) eqn:Es; [discriminate|].
   apply negb_false_iff in Es. apply andb_true_iff in Es. destruct Es as [Es Eg].
   apply mem_In in Es. apply cols_of_table_incl in Eg.
   destruct (rg_target r =? 0).
-  - destruct (add_summary_table_inv _ _ _ _ _ _ _ _ HI Es Eg H) as [J1 [J2 _]]. split; assumption.
+  - destruct (add_summary_table_inv _ _ _ _ _ _ _ _ HI Es Eg H) as [J1 [J2 _]].
+    split; [exact J1|]. split; [exact J2|].
+    pose proof (add_summary_table_sections _ _ _ _ _ _ _ _ H) as Hs.
+    unfold sids in *. apply in_map_iff in Esec. destruct Esec as [s [E Hs0]]. apply in_map_iff. exists s.
+    split; [exact E | apply Hs; exact Hs0].
   - destruct (mem (rg_target r) (tids m)) eqn:Et; [|discriminate]. apply mem_In in Et.
     inversion H; subst m1 tgt. split; [apply append_columns_inv; assumption|].
-    unfold tids, set_columns. simpl. exact Et.
+    split; [unfold tids, set_columns; simpl; exact Et | unfold sids, set_columns; simpl; exact Esec].
 Qed.
 
-Lemma regroup_fields_inv : forall r tgt m1,
-  Inv m1 -> In tgt (tids m1) -> regroup_guard r tgt m1 = true -> Inv (regroup_fields r tgt m1).
+Lemma cols_of_table_spec : forall m cols t c, cols_of_table m cols t = true -> In c cols ->
+  exists cr, In cr (m_columns m) /\ c_id cr = c /\ c_parent cr = t.
 Proof.
-  intros r tgt m1 HI1 Ht Hg. unfold regroup_guard in Hg.
-  apply andb_true_iff in Hg. destruct Hg as [Hg G3]. apply andb_true_iff in Hg. destruct Hg as [G1 G2].
-  rewrite forallb_forall in G2, G3.
-  assert (G1' : forall t, In t (m_tables m1) -> t_raw t <> rg_sec r /\ t_card t <> rg_sec r).
-  { intros t Ht0. apply negb_true_iff in G1.
-    destruct ((t_raw t =? rg_sec r) || (t_card t =? rg_sec r)) eqn:E.
-    - exfalso. assert (existsb (fun t0 => (t_raw t0 =? rg_sec r) || (t_card t0 =? rg_sec r)) (m_tables m1) = true)
-        by (apply existsb_exists; exists t; split; assumption). congruence.
-    - apply orb_false_iff in E. destruct E as [E1 E2]. apply Z.eqb_neq in E1, E2. split; assumption. }
-  set (sec := rg_sec r) in *.
-  set (h := fun f => match lookup (f_id f) (rg_remap r) with Some c => with_fcol c f | None => f end).
-  set (g := fun s => if s_id s =? sec then with_stable tgt s else s).
-  pose proof (rm_fields_inv [] (rg_dels r) m1 HI1) as HI2.
-  set (m2 := rm_fields (rg_dels r) m1) in *.
-  set (m' := regroup_fields r tgt m1) in *.
-  assert (Hh : forall f, f_id (h f) = f_id f /\ f_section (h f) = f_section f /\ f_display (h f) = f_display f /\
-                         f_visible (h f) = f_visible f /\ f_rules (h f) = f_rules f).
-  { intros f. unfold h. destruct (lookup (f_id f) (rg_remap r)); simpl; tauto. }
-  assert (Hgs : forall s, s_id (g s) = s_id s /\ s_view (g s) = s_view s /\ s_rules (g s) = s_rules s).
-  { intros s. unfold g. destruct (s_id s =? sec); simpl; tauto. }
-  set (nf := new_fields (next_id (map f_id (map h (m_fields m2)))) sec (rg_new r)).
-  assert (EF : m_fields m' = map h (m_fields m2) ++ nf) by reflexivity.
-  assert (ES : m_sections m' = map g (m_sections m2)) by reflexivity.
-  assert (ET : m_tables m' = m_tables m2) by reflexivity.
-  assert (EC : m_columns m' = m_columns m2) by reflexivity.
-  assert (EV : m_views m' = m_views m2) by reflexivity.
-  assert (Etid : tids m' = tids m2) by reflexivity.
-  assert (Ecid : cids m' = cids m2) by reflexivity.
-  assert (Efid0 : map f_id (map h (m_fields m2)) = fids m2) by (apply map_map_id; intros f; apply Hh).
-  destruct HI2 as [I1 I2 I3 I4 I5 I6 I7 I8].
-  constructor.
-  - destruct I1 as [A [B [C [D [E [F G]]]]]]. unfold IdsOk. rewrite Etid, Ecid, EV.
-    split; [exact A|]. split; [exact B|]. split; [exact C|].
-    split; [unfold sids; rewrite ES; rewrite map_map_id; [exact D | intros s; apply Hgs]|].
-    split; [|split; assumption].
-    unfold fids. rewrite EF, map_app. unfold nf. rewrite new_fields_ids, Efid0. apply IdList_zseq. exact E.
-  - intros c Hc. rewrite EC in Hc. specialize (I2 c Hc). unfold ColOk in *. rewrite Etid, Ecid. exact I2.
-  - intros f Hf.
-    assert (Hopt : Optref (cids m') (f_display f) /\ Optref (cids m') (f_visible f) /\ incl (f_rules f) (cids m')).
-    { rewrite Ecid. rewrite EF in Hf. apply in_app_iff in Hf. destruct Hf as [Hf|Hf].
-      - apply in_map_iff in Hf. destruct Hf as [f0 [E0 Hf0]]. subst f. destruct (Hh f0) as [_ [_ [H3 [H4 H5]]]].
-        rewrite H3, H4, H5. destruct (I3 f0 Hf0) as [_ J]. exact J.
-      - apply new_fields_In in Hf. destruct Hf as [_ [_ [H3 [H4 H5]]]]. rewrite H3, H4, H5.
-        split; [left; reflexivity|]. split; [left; reflexivity | intros x []]. }
-    split; [|exact Hopt].
-    destruct (f_section f =? sec) eqn:Esec.
-    + apply Z.eqb_eq in Esec. specialize (G3 f Hf). fold sec in G3.
-      rewrite Esec in G3. rewrite Z.eqb_refl in G3. simpl in G3. rewrite Esec. apply col_of_section_iff. exact G3.
-    + apply Z.eqb_neq in Esec. rewrite EF in Hf. apply in_app_iff in Hf. destruct Hf as [Hf|Hf].
-      * apply in_map_iff in Hf. destruct Hf as [f0 [E0 Hf0]].
-        assert (Hf1 : In f0 (m_fields m1)) by (unfold m2 in Hf0; simpl in Hf0; apply filter_In in Hf0; tauto).
-        assert (Es0 : f_section f0 <> sec) by (destruct (Hh f0) as [_ [H2 _]]; rewrite <- H2, E0; exact Esec).
-        specialize (G2 f0 Hf1). apply Z.eqb_neq in Es0. rewrite Es0 in G2. simpl in G2.
-        assert (Ehf : h f0 = f0) by (unfold h; destruct (lookup (f_id f0) (rg_remap r)); [discriminate | reflexivity]).
-        rewrite Ehf in E0. subst f0.
-        destruct (I3 f Hf0) as [[sr [cr [Hs [H1 [Hc [H2 H3]]]]]] _].
-        exists sr, cr. rewrite ES, EC. split.
-        { apply in_map_iff. exists sr. split; [|exact Hs]. unfold g. rewrite H1. apply Z.eqb_neq in Esec.
-          rewrite Esec. reflexivity. }
-        tauto.
-      * apply new_fields_In in Hf. destruct Hf as [H1 _]. contradiction.
-  - intros s' Hs'. rewrite ES in Hs'. apply in_map_iff in Hs'. destruct Hs' as [s [E Hs]]. subst s'.
-    destruct (I4 s Hs) as [J1 [J2 J3]]. destruct (Hgs s) as [_ [H2 H3]].
-    unfold SecOk. rewrite Etid, Ecid, EV, H2, H3. split; [|split; assumption].
-    unfold g. destruct (s_id s =? sec); [simpl; exact Ht | exact J1].
-  - intros t Ht0 Hx. rewrite ET in Ht0. destruct (I5 t Ht0 Hx) as [J1 [J2 [J3 J4]]].
-    destruct (G1' t Ht0) as [Nr Nc].
-    assert (Hsec : forall sid, sid <> sec -> SecOfTable m2 sid (t_id t) -> SecOfTable m' sid (t_id t)).
-    { intros sid Hn [s [Hs [H1 H2]]]. exists s. rewrite ES. split; [|tauto].
-      apply in_map_iff. exists s. split; [|exact Hs]. unfold g. rewrite H1. apply Z.eqb_neq in Hn. rewrite Hn. reflexivity. }
-    unfold TableOk. rewrite Etid, EV. split; [apply Hsec; assumption|].
-    split; [destruct J2 as [J2|J2]; [left; exact J2 | right; apply Hsec; assumption] | split; assumption].
-  - intros b Hb. apply (I6 b Hb).
-  - intros b Hb. apply (I7 b Hb).
-  - exact I8.
+  intros m cols t c H Hc. unfold cols_of_table in H. rewrite forallb_forall in H. specialize (H c Hc).
+  apply existsb_exists in H. destruct H as [cr [Hcr Hp]]. apply andb_true_iff in Hp. destruct Hp as [H1 H2].
+  apply Z.eqb_eq in H1, H2. exists cr. tauto.
 Qed.
 
-Lemma apply_regroup_guarded_inv : forall r m m', Inv m -> apply_regroup_guarded r m = Ok m' -> Inv m'.
+Lemma lookup_In : forall k l c, lookup k l = Some c -> In c (map snd l).
 Proof.
-  intros r m m' HI H. unfold apply_regroup_guarded in H.
-  destruct (regroup_target r m) as [[m1 tgt]| |] eqn:Et; simpl in H; try discriminate.
-  destruct (regroup_target_inv r m m1 tgt HI Et) as [HI1 Ht].
-  destruct (regroup_guard r tgt m1) eqn:Eg; [|discriminate]. inversion H; subst m'.
-  apply regroup_fields_inv; assumption.
-Qed.
-
-Lemma apply_regroups_guarded_inv : forall rs m m', Inv m -> apply_regroups_guarded rs m = Ok m' -> Inv m'.
-Proof.
-  induction rs as [|r t IH]; intros m m' HI H; simpl in H.
-  - inversion H; subst. exact HI.
-  - destruct (apply_regroup_guarded r m) as [m1| |] eqn:E; simpl in H; try discriminate.
-    apply (IH m1 m'); [apply (apply_regroup_guarded_inv r m m1 HI E) | exact H].
-Qed.
-
-(* the guarded run is the faithful run whenever it is defined *)
-Lemma apply_regroup_guarded_agrees : forall r m m', apply_regroup_guarded r m = Ok m' -> apply_regroup r m = Ok m'.
-Proof.
-  intros r m m' H. unfold apply_regroup_guarded, apply_regroup in *.
-  destruct (regroup_target r m) as [[m1 tgt]| |]; simpl in *; try discriminate.
-  destruct (regroup_guard r tgt m1); [exact H | discriminate].
-Qed.
-
-Lemma apply_regroups_guarded_agrees : forall rs m m', apply_regroups_guarded rs m = Ok m' -> apply_regroups rs m = Ok m'.
-Proof.
-  induction rs as [|r t IH]; intros m m' H; simpl in *; [exact H|].
-  destruct (apply_regroup_guarded r m) as [m1| |] eqn:E; simpl in H; try discriminate.
-  rewrite (apply_regroup_guarded_agrees r m m1 E). simpl. apply IH. exact H.
+  intros k. induction l as [|[a b] t IH]; intros c H; simpl in *; [discriminate|].
+  destruct (a =? k); [inversion H; subst; left; reflexivity | right; apply IH; exact H].
 Qed.
